@@ -38,6 +38,9 @@ def gen_cases(rng, tier, drift):
                         cfg["sizes"] = [rng.randint(1, 4) for _ in range(4)]
                         cfg["stateful"] = rng.random() < 0.7
                     cases.append(dict(cfg=cfg, Ws=Ws, Wl=Wl, k=rng.randint(0, 2), empty=False))
+                    # the same pair with a state taken AFTER the end of the epoch was seen (StopIteration): the loader that loads it starts
+                    # the next epoch - and must still reject a state saved with another worker count
+                    cases.append(dict(cfg=dict(cfg), Ws=Ws, Wl=Wl, k=99, empty=False, fin=True))
                 # the fast-forward resume path (an IterableDataset with no state of its own: the loader replays the batches)
                 # has its own guards; every mismatching pair is also tried there, at interruption points where the
                 # last-yielded-worker cross-check happens to agree
@@ -99,6 +102,12 @@ def run_impl(c):
         it = iter(dl)
         for _ in range(min(c["k"], len(si.batches_ref(cs)))):
             next(it)
+        if c.get("fin"):
+            try:
+                next(it)
+                fails.append("no StopIteration after the last batch")
+            except StopIteration:
+                pass
         sd = dl.state_dict()
         del it, dl
         children()
@@ -119,7 +128,10 @@ def run_impl(c):
         left = children() if r1[0] == "raises" else 0
         same = c["Ws"] == c["Wl"]
         obs = [r1[0], left]
-        if same:
+        if same and c.get("fin"):
+            if r1[0] != "data":      # (what the next epoch contains is C01/C13's subject and depends on the dataset's own end-of-epoch state)
+                fails.append(f"same num_workers={c['Wl']}, state taken after the end of the epoch: a valid state was rejected: {r1}")
+        elif same:
             k = min(c["k"], len(ref_l))
             if r1 != ["data", ref_l[k:]]:
                 fails.append(f"same num_workers={c['Wl']}: resumed iteration gave {r1}, expected {ref_l[k:]}")
